@@ -49,6 +49,9 @@ def obligations(tier):
                            timeout=600, engine="E2 fplia (AST -> QF_LIA, z3)"))
     obs.append(smt("timestamp_grammars", "smt.C01_re", "timestamp_grammars", args=dict(maxlen=24 if q else 40), timeout=600,
                    engine="E3 re2smt (compiled regexes -> z3 regex terms, language inclusion)"))
+    for k in ((1, 2, 3, 6) if q else (1, 2, 3, 4, 5, 6, 7, 9)):
+        obs.append(smt(f"ttml_clock_fraction_k{k}", "smt.C01_fp", "dfxp_clock_fraction", args=dict(k=k, hmax=99 if q else 999), timeout=600,
+                       engine="E2 fplia (AST -> QF_LIA, z3)"))
     obs.append(smt("ttml_clock_frames", "smt.C01_fp", "dfxp_clock_frames", args=dict(hmax=999), timeout=600,
                    engine="E2 fplia (AST -> QF_LIA, z3)"))
     return obs
